@@ -73,6 +73,50 @@ class SimRandom:
         u2 = self._next()
         return mu + sigma * math.sqrt(-2.0 * math.log(u1)) * math.cos(2 * math.pi * u2)
 
+    def normalvariate(self, mu, sigma):
+        return self.gauss(mu, sigma)
+
+    def triangular(self, low=0.0, high=1.0, mode=None):
+        u = self._next()
+        c = 0.5 if mode is None else (mode - low) / (high - low)
+        if u > c:
+            u, c, low, high = 1.0 - u, 1.0 - c, high, low
+        return low + (high - low) * (u * c) ** 0.5
+
+    def expovariate(self, lambd):
+        import math
+        return -math.log(1.0 - self._next()) / lambd
+
+    def getrandbits(self, k):
+        return int(self._next() * (1 << min(k, 52))) << max(0, k - 52)
+
+    def shuffle(self, x):
+        for i in reversed(range(1, len(x))):
+            j = int(self._next() * (i + 1))
+            x[i], x[j] = x[j], x[i]
+
+    def sample(self, population, k):
+        pool = list(population)
+        self.shuffle(pool)
+        return pool[:k]
+
+    def choices(self, population, weights=None, k=1):
+        pop = list(population)
+        if weights is None:
+            return [pop[int(self._next() * len(pop))] for _ in range(k)]
+        tot = float(sum(weights))
+        out = []
+        for _ in range(k):
+            x, acc = self._next() * tot, 0.0
+            for item, w in zip(pop, weights):
+                acc += w
+                if x < acc:
+                    out.append(item)
+                    break
+            else:
+                out.append(pop[-1])
+        return out
+
     def seed(self, *a, **k):
         return None
 
